@@ -159,6 +159,25 @@ one_pair (const unsigned char key[8], const unsigned char blk[8], int junk, int 
   gather (back, b64r);
   if (memcmp (back, blk, 8)) viol ("decrypt_r", "%s: decrypt_r(encrypt_r(x)) != x key=%s block=%s", cls, hk, hb);
 
+  /* any non-zero edflag means decrypt (encrypt(3)): not only 1 */
+  {
+    static const int flags[] = { 2, -1, 256, -2147483647 - 1, 2147483647, 3 };
+    int fl = flags[(key[0] ^ blk[7]) % 6];
+    unsigned char cipher[8];
+    spread (k64, key, 0);
+    p_setkey_r (k64, cd_a);
+    spread (b64r, want, 0);            /* the ciphertext */
+    p_encrypt_r (b64r, fl, cd_a);
+    gather (back, b64r);
+    n_cmp++;
+    if (memcmp (back, blk, 8)) viol ("edflag", "%s: encrypt_r with edflag %d does not decrypt key=%s", cls, fl, hk);
+    p_setkey (k64);
+    spread (b64, want, 0);
+    p_encrypt (b64, fl);
+    gather (cipher, b64);
+    if (memcmp (cipher, blk, 8)) viol ("edflag", "%s: encrypt with edflag %d does not decrypt key=%s", cls, fl, hk);
+  }
+
   /* parity bits of the key are ignored */
   unsigned char k2[8];
   for (int i = 0; i < 8; i++) k2[i] = key[i] ^ 1;
